@@ -18,8 +18,13 @@ Rules applied (and nothing else; every application is counted in the header of t
             dropped field is listed in the header.  If a kept method starts to use a dropped field, the field is kept
             automatically and the harness crate stops compiling (driver: exit 2), it can never be silently ignored.
 No contracts are spliced, no assertion is rewritten: the debug_assert!s of the real text stay and are checked by Kani.
-No stand-in type was needed: every type mentioned by the kept items is either cut here too or public in gimli
-(`gimli::{Encoding, LineEncoding}`, `gimli::write::Address`), imported by linegen.rs.
+No stand-in type had to be substituted IN THE TEXT: every type mentioned by the kept items is either cut here too or public
+in gimli (`gimli::{Encoding, LineEncoding}`, `gimli::write::Address`), imported by linegen.rs.  The name `Vec` (field
+`instructions: Vec<LineInstruction>`) is resolved by linegen.rs to its observer stand-in `sink::Vec` (push only; documented there).
+
+Seeded-defect validation (not part of any check): copy /repo to a scratch directory, change the text there, run
+`GIMLI_REPO=<scratch> python3 kani/gen_linegen.py --out <private crate>/src/gen/linegen_items.rs` and point the private
+crate's `gimli = { path = .. }` at the scratch tree.
 """
 import hashlib
 import os
@@ -96,15 +101,6 @@ def build(ctx):
     if not reexp:
         raise Lost(f'{REL}: `pub use self::id::*;` not found')
 
-    # the statements the seeded-defect validation and the harness documentation refer to must still be there
-    for fn, anchor in [('generate_row', 'let op_range = (255 - special_base) / line_range;'),
-                       ('generate_row', 'if special + op_advance * line_range <= 255'),
-                       ('generate_row', 'debug_assert!(self.line_encoding.line_base <= 0);'),
-                       ('op_advance', 'debug_assert!(self.row.address_offset >= self.prev_row.address_offset);')]:
-        a, b = method_span(imp.text, fn)
-        if anchor not in imp.text[a:b]:
-            raise Lost(f'{REL}: LineProgram::{fn}: anchor `{anchor}` not found')
-
     # provenance: whatever is not a logged removal is a verbatim substring of the (comment-stripped, cfg-evaluated) source
     for it in items:
         if it.text == it.orig and it.text not in src.text:
@@ -134,7 +130,8 @@ def main():
     hdr.append('// R-FIELDS struct LineProgram: kept ' + ', '.join(kept_fields) + '; dropped (no kept method mentions self.<field>):')
     for d in dropped_fields:
         hdr.append('//   ' + ' '.join(d.split()))
-    hdr.append('// stand-ins: none')
+    hdr.append('// stand-ins: none in this text; the NAME `Vec` in `instructions: Vec<LineInstruction>` is resolved by the including module')
+    hdr.append('//   (kani/src/linegen.rs, `use self::sink::Vec`) to an observer with `push` only - see the comment there')
     hdr.append('// rule counts: ' + ', '.join(f'{k}={v}' for k, v in sorted(ctx.rules.items())) + ', R-DOC=1 (whole file)')
     body = '\n\n'.join(it.text.strip('\n') for it in items) + '\n' + reexp + '\n'
     body = re.sub(r'\n([ \t]*\n){2,}', '\n\n', body)      # runs of blank lines left by R-DOC / R-DROP collapsed (whitespace only)
